@@ -1,5 +1,6 @@
 import NutilsVerif.Proofs.C15Block
 import NutilsVerif.Proofs.C15Coo
+import NutilsVerif.Proofs.C15BlockCode
 /-!
 # C15 — property theorems (statements only about the executable model in `Model/C15.lean`)
 
@@ -229,13 +230,47 @@ theorem block_assemble (blocks : List (List Block)) (h : blocksOK blocks = true)
   obtain ⟨hv, hd⟩ := block_dense blocks h
   rw [assemble_valid _ hv, hd]
 
-/-
-`block_code_partial` (not proved in Lean): `blockMergeCode blocks = .ok (blockMerge blocks, any)` for well-formed
-blocks, i.e. that the single-block fast path and the skipping of empty blocks of the *code* model produce the same
-triple as the specification-level merge.  This equality is checked by the correspondence on every generated block
-structure instead (driver request `block`, field `merge-agrees`), and the code model is compared with the triple
-that the real `assemble_block_csr` hands to `assemble_csr`.
--/
+/-- **single-block fast path of `assemble_block_csr`.**  For every block that passed the per-block validation (row
+pointers start at 0, are monotone and end at `len(values) = len(colidx)`) and has at least one entry, and every state
+of the accumulated output lists, the fast path (`values.append(v); rowptr.extend(rp[1:] + ptr); colidx.append(ci)`)
+produces exactly the state of the generic row-by-row path. -/
+theorem block_fastpath_eq (vs rp cs : List Int) (a : Acc)
+    (hrp : rowptrOK rp vs.length = true) (hlen : cs.length = vs.length) (hne : vs ≠ []) :
+    fastRows (vs, rp, cs) a = genericRows [(vs, rp, cs)] (rp.length - 1) a :=
+  (fast_eq_generic' vs rp cs a hrp hlen hne).symm
+
+/-- **skipping empty blocks.**  A validated block without entries contributes nothing to any row of the generic
+path (so `if len(block_values)` may drop it, while its width still advances `col_offset`). -/
+theorem block_skip_empty (rp cs : List Int) (rest : List BData) (irow : Nat)
+    (hrp : rowptrOK rp 0 = true) (hlen : cs.length = 0) (hi : irow + 1 < rp.length) :
+    genRow (([], rp, cs) :: rest) irow = genRow rest irow :=
+  genRow_skip_empty rp cs rest irow hrp hlen hi
+
+/-- **the code path of `assemble_block_csr`.**  For every well-formed block structure with a common dtype, the code
+model (first loop: assertions, per-block validation, column offsets, skipping of empty blocks; then per block row the
+single-block fast path or the generic row-by-row path; fold over the block rows) hands exactly the triple
+`blockMerge blocks` to `assemble_csr`; when nothing was appended (`if not values`) that triple has no entries. -/
+theorem block_code (blocks : List (List Block)) (h : blocksOK blocks = true) (dt : Nat)
+    (hdt : ∀ brow ∈ blocks, ∀ b ∈ brow, b.dt = dt) :
+    ∃ any, blockMergeCode blocks = .ok (blockMerge blocks, any) ∧ (any = false → (blockMerge blocks).values = []) :=
+  blockMergeCode_ok blocks h dt hdt
+
+/-- **`assemble_block_csr` as a whole** (including the `empty(...)` shortcut): well-formed block data is assembled
+to the block matrix of the blocks' dense meanings. -/
+theorem assemble_block_ok (blocks : List (List Block)) (h : blocksOK blocks = true) (dt : Nat)
+    (hdt : ∀ brow ∈ blocks, ∀ b ∈ brow, b.dt = dt) :
+    assembleBlock blocks = .ok (.ok (blockDense blocks)) := by
+  obtain ⟨any, hc, he⟩ := block_code blocks h dt hdt
+  obtain ⟨hv, hd⟩ := block_dense blocks h
+  unfold assembleBlock
+  rw [hc]
+  simp only [bind, Except.bind, pure, Except.pure]
+  cases any with
+  | true => simp [assemble_valid _ hv, hd]
+  | false =>
+    have := valid_empty _ hv (he rfl)
+    simp only [Bool.false_eq_true, if_false]
+    rw [← this, assemble_valid _ hv, hd]
 
 /-! ## 7. diagonal and row support computed from the sparse exports -/
 
@@ -280,6 +315,9 @@ example : cooValidB [1, 2, 3] [0, 0, 2] 3 [0, 1, 1] 2 = true := by decide
 -- a 2x2 block structure with an empty block, a zero-width block column and a single-block row is well-formed
 example : blocksOK [[{ values := [1], rowptr := [0, 1], colidx := [0], ncols := 1 }, { values := [], rowptr := [0, 0], colidx := [], ncols := 2 }],
                     [{ values := [], rowptr := [0, 0, 0], colidx := [], ncols := 0 }, { values := [2, 3], rowptr := [0, 1, 2], colidx := [2, 0], ncols := 3 }]] = true := by decide
+-- a validated non-empty block for the fast path, and an empty one
+example : rowptrOK [0, 1, 1, 3] [4, 5, 6].length = true ∧ [0, 0, 2].length = [4, 5, 6].length ∧ ([4, 5, 6] : List Int) ≠ [] := by decide
+example : rowptrOK [0, 0, 0] 0 = true := by decide
 -- a rectangular dense array with a zero row
 example : ∀ row ∈ ([[0, 2, 0], [0, 0, 0]] : Dense), row.length = 3 := by decide
 
